@@ -162,7 +162,11 @@ class BodyMixin:
             b = self._get_body_string()
             if not b:
                 return None
-            return json_mod.loads(b)
+            try:
+                return json_mod.loads(b)
+            except (ValueError, RecursionError):
+                # invalid JSON (or not UTF-8, or nested too deep) is the client's fault
+                self._raise(BodyParsingError(), RequestError)
         return None
 
     @cache_in('environ[ ombott.request.post ]', read_only=True)
@@ -181,7 +185,12 @@ class BodyMixin:
         ctype = self.content_type
         if not ctype.startswith('multipart/'):
             if ctype.startswith('application/json'):
-                post.update(self.json)
+                data = self.json
+                if data is not None:
+                    if not isinstance(data, dict):
+                        # only a JSON object can be taken as form data
+                        self._raise(BodyParsingError(), RequestError)
+                    post.update(data)
             else:
                 parse_qsl(
                     touni(self._get_body_string(), 'latin1'),
